@@ -62,7 +62,7 @@ func init() {
 	register(func() {
 		engine.Register(&engine.Check{
 			ID: "C10", Level: "exploration",
-			Rule: "every extended event (15 typed array kinds, 14 typed map kinds, each with nil/empty/one/two/boundary contents incl. values forcing the widest UBJSON marker; OnStringRef/OnKeyRef with the string alphabet) x 8 positions (top level, first/middle/last of known- and unknown-length arrays, object value, nested) x follow-ups (events after it in the same container, closing the container, a second document) x 12 consumers (3 encoders, unfolder into interface{} and into the matching typed target, EnsureExtVisitor over a plain visitor and over visitors exposing only one optional interface); run A delivers the extended call, run B its basic-event expansion to a second fresh consumer; oracle: same decoded value (reference decoders; map-derived objects unordered), identical bytes for everything written after the event, identical private-state fingerprint right after the event, deep-equal unfolded Go values, identical recorded events; a case = (event, position, consumer); non-trivial = non-empty contents",
+			Rule:        "every extended event (15 typed array kinds, 14 typed map kinds, each with nil/empty/one/two/boundary contents incl. values forcing the widest UBJSON marker; OnStringRef/OnKeyRef with the string alphabet) x 8 positions (top level, first/middle/last of known- and unknown-length arrays, object value, nested) x follow-ups (events after it in the same container, closing the container, a second document) x 12 consumers (3 encoders, unfolder into interface{} and into the matching typed target, EnsureExtVisitor over a plain visitor and over visitors exposing only one optional interface); run A delivers the extended call, run B its basic-event expansion to a second fresh consumer; oracle: same decoded value (reference decoders; map-derived objects unordered), identical bytes for everything written after the event, identical private-state fingerprint right after the event, deep-equal unfolded Go values, identical recorded events; a case = (event, position, consumer); non-trivial = non-empty contents",
 			Assumptions: []string{"map-derived members are compared unordered", "fingerprint abstraction as in C17"},
 			Families:    c10Families,
 			Require:     []string{"pairs_compared", "fingerprints_compared", "followup_bytes_compared"},
